@@ -102,7 +102,10 @@ impl Item {
 }
 
 fn items() -> Vec<Item> {
-    let ranges: [(Option<(&'static str, &'static str)>, usize); 8] = [
+    let ranges: [(Option<(&'static str, &'static str)>, usize); 10] = [
+        // a wildcard with a parameter is still less specific than a concrete type
+        (Some(("application", "*")), 1),
+        (Some(("*", "*")), 1),
         // a structured-syntax suffix makes a different media type
         (Some(("application", "json+xml")), 0),
         (Some(("application", "json")), 0),
@@ -121,6 +124,20 @@ fn items() -> Vec<Item> {
         }
     }
     out.push(Item { range: None, extra_params: 0, q: Q::Absent });
+    out
+}
+
+/// a reduced alphabet for lists one item longer than the full alphabet affords
+fn reduced_items() -> Vec<Item> {
+    let ranges: [(Option<(&'static str, &'static str)>, usize); 6] =
+        [(Some(("application", "json")), 0), (Some(("application", "x-jackson-smile")), 0), (Some(("application", "*")), 0), (Some(("*", "*")), 0), (Some(("application", "json")), 1), (Some(("application", "*")), 1)];
+    let qs = [Q::Absent, Q::Val("0", 0), Q::Val("0.5", 500)];
+    let mut out = vec![];
+    for (r, p) in ranges {
+        for q in qs {
+            out.push(Item { range: r, extra_params: p, q });
+        }
+    }
     out
 }
 
@@ -189,6 +206,10 @@ fn model(list: Option<&[Item]>, registry: &[Enc]) -> (BTreeSet<Option<usize>>, &
             if distinct_q.len() > 1 {
                 ambiguous = true;
             }
+            // equally specific ranges of equal quality: the one listed first counts
+            // ("among equals the range listed first wins"); only a difference in quality
+            // between equally specific ranges leaves the reading open
+            let top: Vec<(u32, usize)> = distinct_q.iter().map(|q| (*q, top.iter().filter(|t| t.0 == *q).map(|t| t.1).min().unwrap())).collect();
             tops.push(top);
         }
         // every choice of "the" most specific range per encoding
@@ -388,15 +409,25 @@ pub fn run(args: &Args) -> Report {
             let want: Vec<String> = c["accept"].as_array().unwrap().iter().map(|x| x.as_str().unwrap().to_string()).collect();
             let total: u64 = (0..=3).map(|k| (its.len() as u64).pow(k)).sum();
             let _ = total;
-            for len in 0..=3usize {
-                let count = (its.len() as u64).pow(len as u32);
+            let wanted = want.join(",").replace(' ', "");
+            let n_items = wanted.split(',').count();
+            let red = reduced_items();
+            let mut done = false;
+            for (alphabet, max_len) in [(&its, 3usize), (&red, 4usize)] {
+                if done || n_items > max_len {
+                    continue;
+                }
+                let len = n_items;
+                let count = (alphabet.len() as u64).pow(len as u32);
                 let mut w = vec![];
                 for idx in 0..count {
-                    vcommon::enumerate::nth_word(its.len(), len, idx, &mut w);
-                    let list: Vec<Item> = w.iter().map(|i| its[*i]).collect();
+                    vcommon::enumerate::nth_word(alphabet.len(), len, idx, &mut w);
+                    let list: Vec<Item> = w.iter().map(|i| alphabet[*i]).collect();
                     let joined = list.iter().map(|i| i.text()).collect::<Vec<_>>().join(",").replace(' ', "");
-                    if joined == want.join(",").replace(' ', "") {
+                    if joined == wanted {
                         check_list(&list, &reg, &rt, &mut report);
+                        done = true;
+                        break;
                     }
                 }
             }
@@ -419,7 +450,10 @@ pub fn run(args: &Args) -> Report {
         }
     }
     // every list of <= n items x every registry
-    for len in 0..=n {
+    let red = reduced_items();
+    let mut spaces: Vec<(&Vec<Item>, usize)> = (0..=n).map(|len| (&its, len)).collect();
+    spaces.push((&red, n + 1));
+    for (its, len) in spaces {
         let count = (its.len() as u64).pow(len as u32);
         let part = (0..count)
             .into_par_iter()
@@ -448,9 +482,11 @@ pub fn run(args: &Args) -> Report {
     request_side(&mut report);
     report.sample("registry", json!(regs.iter().map(|r| r.iter().map(|e| e.content_type()).collect::<Vec<_>>()).collect::<Vec<_>>()));
     report.bound("max_accept_items", n);
+    report.bound("max_accept_items_reduced_alphabet", n + 1);
+    report.bound("reduced_item_alphabet", json!(red.iter().map(|i| i.text()).collect::<Vec<_>>()));
     report.bound("item_alphabet", json!(its.iter().map(|i| i.text()).collect::<Vec<_>>()));
     report.bound("registries", regs.len());
-    report.rule = "states = (Accept header rendering, ordered registry) pairs — every list of <= n items over the 57-item alphabet, as one header line and split over two lines at every position, x all 15 ordered registries of {json, smile, text/plain} — plus every (Content-Type, registry) pair of the request side; non-trivial = states where the statement determines a single outcome".into();
+    report.rule = "states = (Accept header rendering, ordered registry) pairs — every list of <= n items over the 81-item alphabet and every list of n+1 items over an 18-item reduced alphabet, as one header line and split over two lines at every position, x all 15 ordered registries of {json, smile, text/plain} — plus every (Content-Type, registry) pair of the request side; non-trivial = states where the statement determines a single outcome".into();
     report.assumptions.push("where the statement is silent the model accepts either reading: an Accept header none of whose items is a media range; a malformed q (default quality or range dropped); several equally specific matching ranges with different q".into());
     report
 }
